@@ -65,13 +65,16 @@ type MirroredBuffer struct {
 //
 // It is safe to call NewMirroredBuffer concurrently.
 func NewMirroredBuffer(size int, prefault bool) (b *MirroredBuffer, err error) {
+	// What the deferred cleanup below destroys. It cannot look at b: `return nil, err` has already reset b by the
+	// time deferred functions run.
+	var allocated *MirroredBuffer
 	defer func() {
 		// NOTE: We must ensure the mapping is destroyed in case the constructor
 		// fails. This means you should never write `err :=` below. Always write
 		// `err = `. You can safely return a new error (like with `fmt.Errorf`)
 		// - it will get assigned to the error value defined above.
-		if err != nil && b != nil {
-			_ = b.Destroy()
+		if err != nil && allocated != nil {
+			_ = allocated.Destroy()
 		}
 	}()
 
@@ -92,6 +95,7 @@ func NewMirroredBuffer(size int, prefault bool) (b *MirroredBuffer, err error) {
 		tail: 0,
 		used: 0,
 	}
+	allocated = b
 
 	// TODO location should be logged to syslog
 	directory := "/dev/shm"
